@@ -300,9 +300,11 @@ func VerifC10Run(spec VerifC10Spec) VerifC10Obs {
 	close(start)
 	sendersDone := make(chan struct{})
 	go func() { wg.Wait(); close(sendersDone) }()
+	sdog := VerifNewDog(10)
+	defer sdog.Stop()
 	select {
 	case <-sendersDone:
-	case <-time.After(10 * time.Second):
+	case <-sdog.C:
 		mu.Lock()
 		defer mu.Unlock()
 		obs.Hang = "senders"
@@ -319,9 +321,11 @@ func VerifC10Run(spec VerifC10Spec) VerifC10Obs {
 	// the reader goroutine finishes whatever the client process does afterwards (a lingering client
 	// is released only now)
 	if cr, ok := runner.(*clientProcessRunner); ok {
+		rdog := VerifNewDog(10)
+		defer rdog.Stop()
 		select {
 		case <-cr.done:
-		case <-time.After(10 * time.Second):
+		case <-rdog.C:
 			mu.Lock()
 			defer mu.Unlock()
 			obs.Hang = "the output reader (consumeOutput)"
@@ -333,6 +337,8 @@ func VerifC10Run(spec VerifC10Spec) VerifC10Obs {
 	doRelease()
 	waitCh := make(chan error, 1)
 	go func() { waitCh <- runner.waitForResponses() }()
+	wdog := VerifNewDog(10)
+	defer wdog.Stop()
 	select {
 	case werr := <-waitCh:
 		switch {
@@ -345,7 +351,7 @@ func VerifC10Run(spec VerifC10Spec) VerifC10Obs {
 		default:
 			obs.Wait = "fail"
 		}
-	case <-time.After(10 * time.Second):
+	case <-wdog.C:
 		mu.Lock()
 		defer mu.Unlock()
 		obs.Hang = "waitForResponses"
